@@ -309,4 +309,54 @@ def metricRecord (e : Event) : Option (Enc MetricRecord) :=
     | some value => metricBody e value
   else none
 
+/-! ### `Otlp::emit` re-entered from a value's formatting code
+
+  `OtlpInner::emit` (/repo/emitter/otlp/src/client.rs:655-687) encodes the event on the caller's thread
+  (`encoder.encode_event`) and only then hands the payload to the signal's channel (`sender.send`). Encoding
+  streams the property values, so a value whose `Display` / `sval::Value` code itself emits through the same
+  emitter re-enters `emit` on the same thread *while the outer event is being encoded*. Nothing is held across
+  the value's code: the protobuf encoder's thread-local allocation cache (`LOCAL_CAPACITY`, data.rs:150-190) is
+  borrowed to take the re-usable buffers out and, after `value.stream(..)` returned, to put them back — never
+  while it runs; the JSON encoder has no state; the channel is locked inside `send`, after encoding. So the nested
+  emit is just another emit: it runs to completion (encode, queue) and the outer one continues. -/
+
+/-- `emit` of one event through a signal whose encoder is `enc` (`none` = the event is declined: nothing is
+    queued); the state is the list of records queued so far, oldest first; `.panic` = the emitting thread
+    panicked. -/
+def emitOne {ρ : Type} (enc : Event → Option (Enc ρ)) (e : Event) (q : List ρ) : Enc (List ρ) :=
+  match enc e with
+  | none => .ok q
+  | some .panic => .panic
+  | some (.ok r) => .ok (q ++ [r])
+
+/-- the `k` nested emits, one after the other; a panic in one of them unwinds through everything -/
+def emitNested {ρ : Type} (enc : Event → Option (Enc ρ)) (inner : Event) : Nat → List ρ → Enc (List ρ)
+  | 0, q => .ok q
+  | k + 1, q => (emitOne enc inner q).bind (emitNested enc inner k)
+
+/-- `emit outer` when the encoder formats, `k` times in all, values of `outer` whose formatting code emits
+    `inner` through the same emitter: every nested emit completes (its record is queued) before the outer
+    record is complete and queued. -/
+def emitRe {ρ : Type} (enc : Event → Option (Enc ρ)) (outer inner : Event) (k : Nat) (q : List ρ) : Enc (List ρ) :=
+  (emitNested enc inner k q).bind (emitOne enc outer)
+
+/-- plain emits, one after the other -/
+def emitAll {ρ : Type} (enc : Event → Option (Enc ρ)) : List Event → List ρ → Enc (List ρ)
+  | [], q => .ok q
+  | e :: es, q => (emitOne enc e q).bind (emitAll enc es)
+
+/-- Does the encoder of a signal format the ordinary (not lifted, not shadowed) attribute values of an event?
+    Logs: always (logs.rs:30-58 encodes every event). Traces: iff the event is encoded (traces.rs:41-56 declines
+    before anything is streamed). Metrics: as soon as the event is metric-kinded and has a `metric_value` — the
+    attributes are buffered (metrics.rs:91-113) BEFORE the samples are extracted, so also for an event that is
+    then declined for want of numeric samples. -/
+inductive SignalS where
+  | logs | traces | metrics
+  deriving DecidableEq, Inhabited
+
+def formatsAttributes : SignalS → Event → Bool
+  | .logs, _ => true
+  | .traces, e => (spanRecord e).isSome
+  | .metrics, e => e.isKind .metric && (lookupFirst "metric_value" e.props).isSome
+
 end EmitModel.Encode
